@@ -13,6 +13,9 @@ open Model.Unfold
 theorem pyLt_single (a b : Nat) : pyLt [a] [b] = decide (a < b) := by
   simp [pyLt]
 
+theorem pyLt_cons (a b : Nat) (as bs : PyStr) :
+    pyLt (a :: as) (b :: bs) = (decide (a < b) || (a == b && pyLt as bs)) := rfl
+
 theorem pyLt_irrefl : ∀ s : PyStr, pyLt s s = false := by
   intro s
   induction s with
@@ -82,7 +85,7 @@ theorem volta_key_lt (a b : Nat × Nat) (ha : a.1 ≤ 10) (hb : b.1 ≤ 10) :
       a.1 < b.1 ∨ (a.1 = b.1 ∧ a.2 < b.2) := by
   have h1 := labelChar_lt a.1 b.1 ha hb
   have h2 := labelChar_inj a.1 b.1 ha hb
-  simp only [rawStr, Dest.str, pyLt, pyLt_append_left, Bool.or_eq_true, decide_eq_true_eq, Bool.and_eq_true,
+  simp only [rawStr, Dest.str, List.cons_append, pyLt_cons, pyLt_append_left, Bool.or_eq_true, decide_eq_true_eq, Bool.and_eq_true,
     beq_iff_eq, segId_lt_iff, h1, h2]
 
 theorem volta_key_le (a b : Nat × Nat) (ha : a.1 ≤ 10) (hb : b.1 ≤ 10) :
@@ -186,5 +189,12 @@ theorem class_volta_not_nav (lb : Nat) (d : Dest) (n : Nat) :
 
 theorem class_plain_not_nav (d : Dest) (n : Nat) : pyContains (navMark n) (rawStr .plain d) = false := by
   cases d <;> simp [rawStr, Dest.str, segId, endId, pyContains, navMark, navSub, List.isPrefixOf]
+
+/-! ### ids counted like spreadsheet columns are not ordered by time -/
+
+theorem alphaId_25_26 : alphaId 4 25 = [90] ∧ alphaId 4 26 = [65, 65] := by decide
+
+theorem alphaId_small (i : Nat) (h : i < 26) (fuel : Nat) : alphaId (fuel + 1) i = segId i := by
+  simp [alphaId, h, segId]
 
 end C09
